@@ -32,16 +32,24 @@ HIST_RULE = "seeded multi-replica histories (2..4 replicas with distinct client 
 
 PROPS["C02"] = {
     "level": "proof",
-    "theorems": ["C02_never_drops", "C02_stashed_iff_dependency_absent", "C02_liveness", "C02_monotone_idempotent_exact"],
+    "theorems": ["C02_never_drops", "C02_stashed_iff_dependency_absent", "C02_liveness", "C02_monotone_idempotent_exact",
+                 "C02_block_integrated_only_after_its_dependencies", "C02_apply_update_terminates", "C02_nothing_lost_between_store_and_stash", "C02_missing_vector_is_honest",
+                 "C02_closed_update_is_integrated_completely", "C02_stash_is_retried_when_a_dependency_arrives", "C02_integrates_at_most_the_causal_closure", "C02_and_exactly_the_closure_for_closed_updates",
+                 "C06_KNOWN_FINDING_block_stuck_behind_its_clients_stuck_block", "C06_KNOWN_FINDING_second_application_frees_it"],
     "theorem_kinds": {
         "C02_never_drops": "unbounded (induction over the delivery loop)",
         "C02_stashed_iff_dependency_absent": "unbounded; 'reports missing exactly while a dependency is absent' at stash level",
         "C02_liveness": "unbounded; any arrival order (Permutation) of a dependency-closed set empties the stash",
         "C02_monotone_idempotent_exact": "unbounded",
+        "C02_block_integrated_only_after_its_dependencies": "unbounded: every store reachable by the transcription of apply_update / Update::integrate / BlockPicker",
+        "C02_apply_update_terminates": "unbounded",
+        "C02_nothing_lost_between_store_and_stash": "unbounded",
+        "C02_closed_update_is_integrated_completely": "unbounded (ranking hypothesis)",
+        "C06_KNOWN_FINDING_block_stuck_behind_its_clients_stuck_block": "witness (vm_compute), replayed against the code",
     },
-    "rule": HIST_RULE,
+    "rule": "after EVERY step of every replica the integrated ranges, the holes (Skip blocks), the pending flag and the pending.missing vector of the implementation (hook dump) must equal what the Coq transcription of apply_update computes when it is fed exactly the updates the implementation was given (same batching: single messages, merged pairs, state relays, duplicates); " + HIST_RULE,
     "trusted_base": ["modelled: dependency-driven delivery at unit level (deliver = closure under 'explicit dependencies integrated'); the implementation's block-level BlockPicker / PendingUpdate.missing bookkeeping is NOT modelled - it is tied to the model by the correspondence (has_missing_updates == model stash or pending deletes non-empty, integrated set == model closure whenever the model stash is empty)"],
-    "modelled_not_verified": ["BlockPicker stack/switch control flow", "Update::merge_updates used when merging a new remainder into the stash", "encode_state_as_update merge_pending (covered by C06/C08 checks)"],
+    "modelled_not_verified": ["encode_state_as_update merge_pending (covered by C06/C08 checks)", "the eventual emptiness of the stash for the block-level algorithm (proved for the abstract delivery; for the transcription: conditional theorems + bounded checks, see Crdt/IntegrateProofs.v)"],
     "assumptions": ["the implementation may keep operations stashed while another stashed operation still lacks a dependency (one retry trigger per client); it must report missing updates exactly while the model's stash or pending delete set is non-empty"],
 }
 PROPS["C04"] = {
